@@ -9,7 +9,16 @@
 //!   (3) compile(F, unknown name)   -> clean error; zero pipelines -> the documented error; no-pipeline mode -> one result
 //!   (4) result(F, all)[X] == result(F, name X) == result(F with the other definitions deleted, all)[X]
 //!       on data bytes, stages, metadata and graphics pipeline state (or the same back-end rejection).
+//!   (5) result(F, no-pipeline mode) == result(F with ALL definitions deleted, no-pipeline mode): the pipelines a
+//!       file defines (which, how many, in which order) do not reach the result of no-pipeline mode.
 //! Files with two definitions of the same name are a sub-space of their own (must fail cleanly, never panic).
+//!
+//! Third prelude ("mesh-attr"): 6 mesh entry points (and their 6 payload-taking twins behind one task entry point) that
+//! differ in WHICH of the two user attributes (TEXCOORD, MATERIAL) they emit per vertex and which per primitive — every
+//! one of the 2x2 placements through struct members, plus each attribute alone through a directly annotated
+//! `out primitives` parameter — and share the pixel entry points. Every sequence of mesh pipelines over these entry
+//! points is a file: what a back-end derives from the mesh stage of one pipeline (per-primitive decorations on Vulkan) must not
+//! reach the source of another one.
 
 use crate::engine::*;
 use crate::json::{Json, obj};
@@ -143,6 +152,7 @@ void TsMain(uint3 dtid : SV_DispatchThreadID) {
 "#,
 ];
 
+pub const PRELUDE_NAMES: [&str; 3] = ["full", "no-mesh", "mesh-attr"];
 pub const SHAPE_NAMES: [&str; 5] = ["computeA", "computeB", "vertex+pixel", "mesh+pixel", "task+mesh+pixel"];
 
 /// graphics-state blocks (index 0 = none)
@@ -180,6 +190,140 @@ pub struct Elem {
     pub state: u8,
     /// index into PIXELS (graphics shapes only)
     pub pixel: u8,
+    /// mesh entry point of the mesh shapes: 0 = MsMain / MsPay of the full prelude; 1..=MESH_VARIANTS = attribute-placement
+    /// variant MsA<k> / MsPayA<k> of the mesh-attr prelude (fnset 2), see `mesh_variant_text`
+    pub mesh: u8,
+}
+
+/// where a mesh entry point emits a user attribute: member of the `vertices` struct, member of the `primitives`
+/// struct, or an `out primitives` parameter of its own that carries the semantic directly
+#[derive(Copy, Clone, PartialEq, Eq, Debug)]
+enum Place {
+    Vert,
+    Prim,
+    PrimParam,
+}
+
+/// (placement of TEXCOORD, placement of MATERIAL) of variant k = index + 1: all 2x2 assignments to {per vertex,
+/// per primitive} through struct members, then each attribute alone through a directly annotated primitives parameter
+const PLACEMENTS: [(Place, Place); 6] = [
+    (Place::Vert, Place::Vert),
+    (Place::Prim, Place::Vert),
+    (Place::Vert, Place::Prim),
+    (Place::Prim, Place::Prim),
+    (Place::Vert, Place::PrimParam),
+    (Place::PrimParam, Place::Vert),
+];
+
+/// number of attribute-placement variants of the mesh entry point
+pub const MESH_VARIANTS: u8 = PLACEMENTS.len() as u8;
+
+fn mesh_variant_placement(k: u8) -> (Place, Place) {
+    PLACEMENTS[k as usize - 1]
+}
+
+fn mesh_variant_label(k: u8) -> String {
+    if k == 0 {
+        return "classic".into();
+    }
+    let (uv, mat) = mesh_variant_placement(k);
+    let nm = |p: Place| match p {
+        Place::Vert => "vert",
+        Place::Prim => "prim",
+        Place::PrimParam => "prim-param",
+    };
+    format!("uv:{},material:{}", nm(uv), nm(mat))
+}
+
+/// thread group size of the entry points of variant k: distinct per variant, so that the stage list identifies the
+/// definition on every target (Msl renames the entry points)
+fn mesh_variant_threads(k: u8, payload: bool) -> (u32, u32, u32) {
+    (if payload { 16 } else { 32 }, k as u32, 1)
+}
+
+/// The structs of variant k (with the non-payload entry point) and the entry point itself.
+fn mesh_variant_text(k: u8, payload: bool) -> String {
+    let (uv, mat) = mesh_variant_placement(k);
+    let attrs: [(Place, &str, &str, &str, &str); 2] =
+        [(uv, "float2", "uv", "TEXCOORD", "float2(1, 1)"), (mat, "uint", "material", "MATERIAL", "dtid.x")];
+    let mut s = String::new();
+    let has_prim = attrs.iter().any(|a| a.0 == Place::Prim);
+    if !payload {
+        s.push_str(&format!("\nstruct VtxA{}\n{{\n    float4 position : SV_Position;\n", k));
+        for (pl, ty, name, sem, _) in attrs {
+            if pl == Place::Vert {
+                s.push_str(&format!("    {} {} : {};\n", ty, name, sem));
+            }
+        }
+        s.push_str("};\n");
+        if has_prim {
+            s.push_str(&format!("\nstruct PrimA{}\n{{\n", k));
+            for (pl, ty, name, sem, _) in attrs {
+                if pl == Place::Prim {
+                    s.push_str(&format!("    {} {} : {};\n", ty, name, sem));
+                }
+            }
+            s.push_str("};\n");
+        }
+    }
+    let (x, y, z) = mesh_variant_threads(k, payload);
+    s.push_str(&format!("\n[numthreads({}, {}, {})]\n[outputtopology(\"triangle\")]\n", x, y, z));
+    let mut params = String::new();
+    if payload {
+        params.push_str("in payload Payload data, ");
+    }
+    params.push_str(&format!("out vertices VtxA{} o_verts[32], ", k));
+    if has_prim {
+        params.push_str(&format!("out primitives PrimA{} o_prims[16], ", k));
+    }
+    for (pl, ty, name, sem, _) in attrs {
+        if pl == Place::PrimParam {
+            params.push_str(&format!("out primitives {} o_{}[16] : {}, ", ty, name, sem));
+        }
+    }
+    s.push_str(&format!("void {}A{}(uint3 dtid : SV_DispatchThreadID, {}out indices uint3 o_tris[16]) {{\n", if payload { "MsPay" } else { "Ms" }, k, params));
+    let base = if payload { "data.base" } else { "fetch(dtid.x)" };
+    s.push_str("    SetMeshOutputCounts(32, 16);\n");
+    s.push_str(&format!("    VtxA{} v;\n    v.position = float4({}, 0, 0, 1);\n", k, base));
+    for (pl, _, name, _, value) in attrs {
+        if pl == Place::Vert {
+            s.push_str(&format!("    v.{} = {};\n", name, value));
+        }
+    }
+    s.push_str("    o_verts[dtid.x] = v;\n");
+    if has_prim {
+        s.push_str(&format!("    PrimA{} p;\n", k));
+        for (pl, _, name, _, value) in attrs {
+            if pl == Place::Prim {
+                s.push_str(&format!("    p.{} = {};\n", name, value));
+            }
+        }
+        s.push_str("    o_prims[dtid.x / 2] = p;\n");
+    }
+    for (pl, _, name, _, value) in attrs {
+        if pl == Place::PrimParam {
+            s.push_str(&format!("    o_{}[dtid.x / 2] = {};\n", name, value));
+        }
+    }
+    s.push_str("    o_tris[dtid.x / 2] = uint3(0, 1, 2);\n}\n");
+    s
+}
+
+/// the entry-point functions of a prelude, in file order. 0 = all 8 of FUNCS, 1 = without the mesh and task entry
+/// points, 2 = mesh-attr: the two pixel entry points, the task entry point and MsA<k>, MsPayA<k> for k = 1..=MESH_VARIANTS
+fn funcs(fnset: u8) -> Vec<String> {
+    match fnset {
+        0 => FUNCS.iter().map(|s| s.to_string()).collect(),
+        1 => FUNCS[..5].iter().map(|s| s.to_string()).collect(),
+        _ => {
+            let mut v = vec![FUNCS[3].to_string(), FUNCS[4].to_string(), FUNCS[7].to_string()];
+            for k in 1..=MESH_VARIANTS {
+                v.push(mesh_variant_text(k, false));
+                v.push(mesh_variant_text(k, true));
+            }
+            v
+        }
+    }
 }
 
 impl Elem {
@@ -187,17 +331,20 @@ impl Elem {
         self.shape < 2
     }
     fn code(self) -> String {
-        format!("{}.{}.{}.{}", self.shape, self.dbg, self.state, self.pixel)
+        format!("{}.{}.{}.{}.{}", self.shape, self.dbg, self.state, self.pixel, self.mesh)
     }
     fn parse(s: &str) -> Option<Elem> {
-        let v: Vec<u8> = s.split('.').filter_map(|x| x.trim().parse().ok()).collect();
-        if v.len() != 4 || v[0] > 4 || v[1] as usize >= DBGS.len() || v[2] as usize >= STATES.len() || v[3] as usize >= PIXELS.len() {
+        let mut v: Vec<u8> = s.split('.').filter_map(|x| x.trim().parse().ok()).collect();
+        if v.len() == 4 {
+            v.push(0);
+        }
+        if v.len() != 5 || v[4] > MESH_VARIANTS || (v[4] != 0 && v[0] < 3) || v[0] > 4 || v[1] as usize >= DBGS.len() || v[2] as usize >= STATES.len() || v[3] as usize >= PIXELS.len() {
             return None;
         }
         if v[0] < 2 && (v[2] != 0 || v[3] != 0) {
             return None;
         }
-        Some(Elem { shape: v[0], dbg: v[1], state: v[2], pixel: v[3] })
+        Some(Elem { shape: v[0], dbg: v[1], state: v[2], pixel: v[3], mesh: v[4] })
     }
     /// the definition text
     fn text(self, name: &str) -> String {
@@ -207,16 +354,29 @@ impl Elem {
             0 => s.push_str("    ComputeShader = CsA;\n"),
             1 => s.push_str("    ComputeShader = CsB;\n"),
             2 => s.push_str(&format!("    VertexShader = VsMain;\n    PixelShader = {};\n", px)),
-            3 => s.push_str(&format!("    MeshShader = MsMain;\n    PixelShader = {};\n", px)),
-            _ => s.push_str(&format!("    TaskShader = TsMain;\n    MeshShader = MsPay;\n    PixelShader = {};\n", px)),
+            3 => s.push_str(&format!("    MeshShader = {};\n    PixelShader = {};\n", self.mesh_entry(), px)),
+            _ => s.push_str(&format!("    TaskShader = TsMain;\n    MeshShader = {};\n    PixelShader = {};\n", self.mesh_entry(), px)),
         }
         s.push_str(DBGS[self.dbg as usize]);
         s.push_str(STATES[self.state as usize]);
         s.push_str("}\n");
         s
     }
-    /// index of the last function the definition refers to (placement in the interleaved layout)
-    fn anchor(self) -> usize {
+    /// the mesh entry point of a mesh shape
+    fn mesh_entry(self) -> String {
+        match (self.mesh, self.shape) {
+            (0, 3) => "MsMain".to_string(),
+            (0, _) => "MsPay".to_string(),
+            (k, 3) => format!("MsA{}", k),
+            (k, _) => format!("MsPayA{}", k),
+        }
+    }
+    /// index (into `funcs(fnset)`) of the last function the definition refers to (placement in the interleaved layout)
+    fn anchor(self, fnset: u8) -> usize {
+        if fnset == 2 {
+            // [PsMain, PsAlt, TsMain, MsA1, MsPayA1, MsA2, ...]
+            return 3 + 2 * (self.mesh as usize - 1) + if self.shape == 3 { 0 } else { 1 };
+        }
         match self.shape {
             0 => 0,
             1 => 1,
@@ -225,15 +385,26 @@ impl Elem {
             _ => 7,
         }
     }
+    /// may this element be defined in the prelude `fnset`?
+    fn fits(self, fnset: u8) -> bool {
+        match fnset {
+            0 => self.mesh == 0,
+            1 => self.mesh == 0 && self.shape <= 2,
+            _ => self.shape >= 3 && self.mesh >= 1,
+        }
+    }
     /// what the property lets us predict without running anything: the stage list (reference for "which definition is this")
     fn expected_stages(self, cfg: Cfg) -> String {
         let px = PIXELS[self.pixel as usize];
+        let ms = self.mesh_entry();
         let list: Vec<(&str, &str, Option<(u32, u32, u32)>)> = match self.shape {
             0 => vec![("Compute", "CsA", Some((8, 8, 1)))],
             1 => vec![("Compute", "CsB", Some((64, 1, 1)))],
             2 => vec![("Vertex", "VsMain", None), ("Pixel", px, None)],
-            3 => vec![("Mesh", "MsMain", Some((32, 1, 1))), ("Pixel", px, None)],
-            _ => vec![("Task", "TsMain", Some((4, 1, 1))), ("Mesh", "MsPay", Some((16, 1, 1))), ("Pixel", px, None)],
+            3 if self.mesh == 0 => vec![("Mesh", "MsMain", Some((32, 1, 1))), ("Pixel", px, None)],
+            3 => vec![("Mesh", ms.as_str(), Some(mesh_variant_threads(self.mesh, false))), ("Pixel", px, None)],
+            _ if self.mesh == 0 => vec![("Task", "TsMain", Some((4, 1, 1))), ("Mesh", "MsPay", Some((16, 1, 1))), ("Pixel", px, None)],
+            _ => vec![("Task", "TsMain", Some((4, 1, 1))), ("Mesh", ms.as_str(), Some(mesh_variant_threads(self.mesh, true))), ("Pixel", px, None)],
         };
         let mut s = String::new();
         for (stage, entry, tgs) in list {
@@ -244,20 +415,17 @@ impl Elem {
     }
 }
 
-/// Build the file. `fnset` 0 = all 8 entry points, 1 = without the mesh and task entry points. `keep = Some(k)`: all definitions except the k-th (index into `defs`) are deleted.
+/// Build the file. `fnset` 0 = all 8 entry points, 1 = without the mesh and task entry points, 2 = the mesh-attr prelude (see `funcs`). `keep = Some(k)`: all definitions except the k-th (index into `defs`) are deleted.
 /// Returns the source and the indices into `defs` in source order.
 fn build_file(defs: &[(Elem, String)], layout: u8, fnset: u8, keep: Option<usize>) -> (String, Vec<usize>) {
     let mut src = String::from(HEAD);
     let mut order = Vec::new();
-    for (fi, f) in FUNCS.iter().enumerate() {
-        if fnset == 1 && fi >= 5 {
-            // prelude variant without mesh/task entry points (Msl rejects every non-mesh pipeline of a file that has one)
-            continue;
-        }
+    // fnset 1: prelude variant without mesh/task entry points (Msl rejects every non-mesh pipeline of a file that has one)
+    for (fi, f) in funcs(fnset).iter().enumerate() {
         src.push_str(f);
         if layout == 1 {
             for (k, (e, name)) in defs.iter().enumerate() {
-                if e.anchor() == fi {
+                if e.anchor(fnset) == fi {
                     order.push(k);
                     if keep.is_none() || keep == Some(k) {
                         src.push_str(&e.text(name));
@@ -344,6 +512,24 @@ thread_local! {
     static ALONE: RefCell<HashMap<(Elem, String, u8, u8, Cfg), Out>> = RefCell::new(HashMap::new());
 }
 
+thread_local! {
+    /// no-pipeline mode result of the prelude with every Pipeline block deleted: (fnset, cfg) -> outcome. Pure memoisation.
+    static BARE: RefCell<HashMap<(u8, Cfg), Out>> = RefCell::new(HashMap::new());
+}
+
+/// the reference of oracle (5): the same file with all definitions deleted (the text does not depend on the layout),
+/// compiled in no-pipeline mode
+fn bare_no_pipeline(fnset: u8, cfg: Cfg, acc: &mut Acc) -> Out {
+    if let Some(o) = BARE.with(|c| c.borrow().get(&(fnset, cfg)).cloned()) {
+        return o;
+    }
+    let (src, _) = build_file(&[], 0, fnset, None);
+    let o = compile_out(&src, cfg, Mode::NoPipeline, acc);
+    acc.count("bare_no_pipeline_compiles");
+    BARE.with(|c| c.borrow_mut().insert((fnset, cfg), o.clone()));
+    o
+}
+
 fn alone(e: Elem, name: &str, layout: u8, fnset: u8, cfg: Cfg, acc: &mut Acc) -> Out {
     let key = (e, name.to_string(), layout, fnset, cfg);
     if let Some(o) = ALONE.with(|c| c.borrow().get(&key).cloned()) {
@@ -393,15 +579,16 @@ impl Case {
         let mut s = String::new();
         for (e, n) in self.elems.iter().zip(self.names.iter()) {
             s.push_str(&format!(
-                "{}:{}[dbg{} state{} {}] ",
+                "{}:{}[dbg{} state{} {}{}] ",
                 n,
                 SHAPE_NAMES[e.shape as usize],
                 e.dbg,
                 e.state,
-                if e.is_compute() { "-" } else { PIXELS[e.pixel as usize] }
+                if e.is_compute() { "-" } else { PIXELS[e.pixel as usize] },
+                if e.mesh == 0 { String::new() } else { format!(" {}({})", e.mesh_entry(), mesh_variant_label(e.mesh)) }
             ));
         }
-        format!("{{{}}} layout={} prelude={} target={}", s.trim_end(), self.layout, if self.fnset == 0 { "full" } else { "no-mesh" }, self.cfg.name())
+        format!("{{{}}} layout={} prelude={} target={}", s.trim_end(), self.layout, PRELUDE_NAMES[self.fnset as usize], self.cfg.name())
     }
 }
 
@@ -444,7 +631,59 @@ pub fn check_case(case: &Case, acc: &mut Acc) {
     let v = |sig: String, detail: String| Violation { signature: sig, detail, replay: case.replay(&src) };
 
     // ---- no-pipeline mode: one result, no stages, no state, whatever the file defines
-    match compile_out(&src, cfg, Mode::NoPipeline, acc) {
+    let nop = compile_out(&src, cfg, Mode::NoPipeline, acc);
+    // ---- (5) ... and the same result as for the file with every definition deleted. Files with duplicate names are
+    // excluded (they may be rejected as a whole in every mode).
+    if !dup && n > 0 {
+        let bare = bare_no_pipeline(case.fnset, cfg, acc);
+        let nv = |what: &str, detail: String| Violation {
+            signature: format!("pipeline|no-pipeline-mode-depends-on-pipelines|{}|{}", what, tname),
+            detail,
+            replay: case.replay(&src),
+        };
+        match (&nop, &bare) {
+            (Out::Ok(a), Out::Ok(b)) if a.len() == 1 && b.len() == 1 => {
+                let comps: [(&str, &str, &str); 4] = [
+                    ("data", &a[0].data, &b[0].data),
+                    ("stages", &a[0].stages, &b[0].stages),
+                    ("metadata", &a[0].metadata, &b[0].metadata),
+                    ("state", &a[0].state, &b[0].state),
+                ];
+                let mut same = true;
+                for (comp, x, y) in comps {
+                    if x != y {
+                        same = false;
+                        acc.violation(nv(
+                            comp,
+                            format!("{} of the no-pipeline-mode result differs between the file and the same file with all Pipeline blocks deleted: {} in file {}", comp, first_diff(x, y), case.describe()),
+                        ));
+                    }
+                }
+                if same {
+                    acc.count(&format!("no_pipeline_mode_same_as_without_definitions_{}", tname));
+                }
+            }
+            // a wrong number of results is reported by the shape rule below (file) / is impossible to compare (reference)
+            (Out::Ok(_), Out::Ok(_)) => {}
+            (Out::Err(a), Out::Err(b)) => {
+                if a != b {
+                    acc.violation(nv(
+                        "diagnostic",
+                        format!("no-pipeline mode fails with `{}` but with all Pipeline blocks deleted with `{}`; {}", one_line(a, 160), one_line(b, 160), case.describe()),
+                    ));
+                } else {
+                    acc.count(&format!("no_pipeline_mode_rejected_like_without_definitions_{}", tname));
+                }
+            }
+            // panics are reported below (file) / by the zero-definition spaces (reference)
+            (Out::Panic(..), _) | (_, Out::Panic(..)) => {}
+            (a, b) => acc.violation(nv(
+                "verdict",
+                format!("no-pipeline mode gives {} but with all Pipeline blocks deleted {}; {}", a.brief(), b.brief(), case.describe()),
+            )),
+        }
+    }
+    match nop {
         Out::Ok(ps) => {
             if ps.len() != 1 || !ps[0].stages.is_empty() || ps[0].state != "None" {
                 acc.violation(v(
@@ -693,11 +932,11 @@ fn alphabet(dbgs: &[u8], states: &[u8], pixels: &[u8]) -> Vec<Elem> {
     for shape in 0..5u8 {
         for &dbg in dbgs {
             if shape < 2 {
-                v.push(Elem { shape, dbg, state: 0, pixel: 0 });
+                v.push(Elem { shape, dbg, state: 0, pixel: 0, mesh: 0 });
             } else {
                 for &state in states {
                     for &pixel in pixels {
-                        v.push(Elem { shape, dbg, state, pixel });
+                        v.push(Elem { shape, dbg, state, pixel, mesh: 0 });
                     }
                 }
             }
@@ -711,9 +950,25 @@ fn alphabet_joint(decor: &[(u8, u8, u8)]) -> Vec<Elem> {
     let mut v: Vec<Elem> = Vec::new();
     for shape in 0..5u8 {
         for &(dbg, state, pixel) in decor {
-            let e = if shape < 2 { Elem { shape, dbg, state: 0, pixel: 0 } } else { Elem { shape, dbg, state, pixel } };
+            let e = if shape < 2 { Elem { shape, dbg, state: 0, pixel: 0, mesh: 0 } } else { Elem { shape, dbg, state, pixel, mesh: 0 } };
             if !v.contains(&e) {
                 v.push(e);
+            }
+        }
+    }
+    v
+}
+
+/// mesh-attr alphabet: {mesh+pixel, task+mesh+pixel} x the 4 attribute placements of the mesh entry point x pixel
+/// entries x a short list of (DefaultBindGroup, state) decorations
+fn alphabet_mesh_attr(shapes: &[u8], pixels: &[u8], decor: &[(u8, u8)]) -> Vec<Elem> {
+    let mut v = Vec::new();
+    for &shape in shapes {
+        for mesh in 1..=MESH_VARIANTS {
+            for &pixel in pixels {
+                for &(dbg, state) in decor {
+                    v.push(Elem { shape, dbg, state, pixel, mesh });
+                }
             }
         }
     }
@@ -776,7 +1031,7 @@ impl Space {
     }
 }
 
-const ALPHABETS_DOC: &str = "full = 5 shapes x DefaultBindGroup{absent,0,1,1+1} x 7 state blocks x 2 pixel entries (graphics) (176 elements); mid = DefaultBindGroup{absent,1,1+1} x state{none,#2,#5} x 2 pixel entries (60); forty = DefaultBindGroup{absent,1+1} x state{none,#2,#5} x 2 pixel entries (40); twenty = 5 joint (DefaultBindGroup,state,pixel) decorations (21); small = 3 joint decorations (15); tiny = 2 joint decorations (10); *_nomesh = the same restricted to the compute and vertex+pixel shapes in the prelude variant without mesh/task entry points (run on Msl, which rejects those shapes in the full prelude)";
+const ALPHABETS_DOC: &str = "full = 5 shapes x DefaultBindGroup{absent,0,1,1+1} x 7 state blocks x 2 pixel entries (graphics) (176 elements); mid = DefaultBindGroup{absent,1,1+1} x state{none,#2,#5} x 2 pixel entries (60); forty = DefaultBindGroup{absent,1+1} x state{none,#2,#5} x 2 pixel entries (40); twenty = 5 joint (DefaultBindGroup,state,pixel) decorations (21); small = 3 joint decorations (15); tiny = 2 joint decorations (10); *_nomesh = the same restricted to the compute and vertex+pixel shapes in the prelude variant without mesh/task entry points (run on Msl, which rejects those shapes in the full prelude); *_meshattr = mesh-attr prelude: {mesh+pixel, task+mesh+pixel} x 6 mesh entry points (every placement of TEXCOORD and MATERIAL per vertex / per primitive through struct members = 4, plus each attribute alone through a directly annotated `out primitives` parameter = 2) x 2 pixel entries (24 elements); len1_meshattr additionally x 3 (DefaultBindGroup,state) decorations (72), len2_meshattr_decorated x 2 decorations (48); psalt = pixel entry PsAlt only (12); meshonly = mesh+pixel with PsAlt only (6); meshonly_struct = the 4 struct-member placements of it (4)";
 
 fn spaces(ctx: &Ctx) -> Vec<Space> {
     let full = alphabet(&[0, 1, 2, 3], &[0, 1, 2, 3, 4, 5, 6], &[0, 1]);
@@ -816,6 +1071,31 @@ fn spaces(ctx: &Ctx) -> Vec<Space> {
     z.cfgs = ALL_CFGS.to_vec();
     z.name = "len1_full_nomesh".into();
     v.push(z);
+    // mesh-attr prelude: every sequence of mesh pipelines over the 4 attribute placements
+    let attr = alphabet_mesh_attr(&[3, 4], &[0, 1], &[(0, 0)]);
+    let attr_decor = alphabet_mesh_attr(&[3, 4], &[0, 1], &[(0, 0), (2, 2), (3, 5)]);
+    let attr_decor2 = alphabet_mesh_attr(&[3, 4], &[0, 1], &[(0, 0), (3, 5)]);
+    // both attributes consumed by the pixel stage
+    let attr_alt = alphabet_mesh_attr(&[3, 4], &[1], &[(0, 0)]);
+    let attr_mesh_only = alphabet_mesh_attr(&[3], &[1], &[(0, 0)]);
+    // ... restricted to the placements through struct members (variants 1..=4)
+    let attr_mesh_only_struct: Vec<Elem> = attr_mesh_only.iter().copied().filter(|e| e.mesh <= 4).collect();
+    let attr_sp = |name: &str, alpha: &Vec<Elem>, len: usize, schemes: &[usize], layouts: &[u8]| -> Space {
+        let mut s = sp(name, alpha, len, schemes, layouts, false);
+        s.fnset = 2;
+        s
+    };
+    v.push(attr_sp("len0_meshattr", &attr, 0, &[0], &[0]));
+    v.push(attr_sp("len1_meshattr", &attr_decor, 1, &[1], &[0, 1]));
+    if ctx.quick() {
+        v.push(attr_sp("len2_meshattr", &attr, 2, &[1], &[0]));
+        v.push(attr_sp("len3_meshattr_meshonly_struct", &attr_mesh_only_struct, 3, &[1], &[0]));
+    } else {
+        v.push(attr_sp("len2_meshattr", &attr, 2, &[0, 1], &[0, 1]));
+        v.push(attr_sp("len2_meshattr_decorated", &attr_decor2, 2, &[1], &[0]));
+        v.push(attr_sp("len3_meshattr_psalt", &attr_alt, 3, &[1], &[0]));
+        v.push(attr_sp("len4_meshattr_meshonly", &attr_mesh_only, 4, &[1], &[0]));
+    }
     if ctx.quick() {
         v.push(sp("len2_forty", &forty, 2, &[1], &[0], false));
         v.push(msl_only(sp("len2_mid", &mid, 2, &[1], &[0], false)));
@@ -882,11 +1162,11 @@ fn sanity(rep: &mut Report) -> Result<(), String> {
                     if (shape < 2 && pixel > 0) || (fnset == 1 && shape > 2) {
                         continue;
                     }
-                    let e = Elem { shape, dbg: 0, state: 0, pixel };
+                    let e = Elem { shape, dbg: 0, state: 0, pixel, mesh: 0 };
                     let (src, _) = build_file(&[(e, "P0".to_string())], 0, fnset, None);
                     let o = compile_out(&src, cfg, Mode::All, &mut acc);
                     let ok = matches!(&o, Out::Ok(ps) if ps.len() == 1);
-                    let label = format!("{} prelude, {}/{}", if fnset == 0 { "full" } else { "no-mesh" }, SHAPE_NAMES[shape as usize], PIXELS[pixel as usize]);
+                    let label = format!("{} prelude, {}/{}", PRELUDE_NAMES[fnset as usize], SHAPE_NAMES[shape as usize], PIXELS[pixel as usize]);
                     if cfg == Cfg::Msl {
                         msl.push(format!("{}: {}", label, if ok { "ok".to_string() } else { o.brief() }));
                     }
@@ -899,13 +1179,52 @@ fn sanity(rep: &mut Report) -> Result<(), String> {
             }
         }
     }
+    // mesh-attr prelude: every mesh shape over every attribute placement is accepted on every target, and on Vulkan the
+    // per-primitive decoration (SPIR-V decoration 5271) appears exactly for the placements with a per-primitive attribute
+    let mut placements = Vec::new();
+    for cfg in ALL_CFGS {
+        for shape in 3..5u8 {
+            for mesh in 1..=MESH_VARIANTS {
+                for pixel in 0..2u8 {
+                    let e = Elem { shape, dbg: 0, state: 0, pixel, mesh };
+                    let (src, _) = build_file(&[(e, "P0".to_string())], 0, 2, None);
+                    let o = compile_out(&src, cfg, Mode::All, &mut acc);
+                    let label = format!("mesh-attr prelude, {}/{}/{}", SHAPE_NAMES[shape as usize], e.mesh_entry(), PIXELS[pixel as usize]);
+                    let (uv, mat) = mesh_variant_placement(mesh);
+                    let ps = match &o {
+                        Out::Ok(ps) if ps.len() == 1 => ps,
+                        // the Metal back-end does not collect attributes from directly annotated primitives parameters
+                        // (the pixel stage then misses its interpolator): a back-end rejection, handled like the others
+                        Out::Err(e) if cfg == Cfg::Msl && (uv == Place::PrimParam || mat == Place::PrimParam) => {
+                            msl.push(format!("{}: {}", label, one_line(e, 120)));
+                            continue;
+                        }
+                        _ => return Err(format!("generated file ({}) is not accepted on {}: {}", label, cfg.name(), o.brief())),
+                    };
+                    if ps[0].stages != e.expected_stages(cfg) {
+                        return Err(format!("generated file ({}) on {}: stages `{}`", label, cfg.name(), one_line(&ps[0].stages, 120)));
+                    }
+                    if cfg == Cfg::Vk {
+                        let decorated = ps[0].data.matches("5271").count();
+                        if (decorated > 0) != (uv != Place::Vert || mat != Place::Vert) {
+                            return Err(format!("generated file ({}): {} per-primitive decorations on Vulkan, placement {}", label, decorated, mesh_variant_label(mesh)));
+                        }
+                        if shape == 3 {
+                            placements.push(format!("{} + {}: {} per-primitive decorations", e.mesh_entry(), PIXELS[pixel as usize], decorated));
+                        }
+                    }
+                }
+            }
+        }
+    }
+    rep.cov("vulkan_per_primitive_decorations_per_mesh_entry", placements.into());
     rep.cov("msl_verdict_per_shape", msl.into());
     Ok(())
 }
 
 pub fn run(ctx: &Ctx) -> i32 {
     let mut rep = Report::new("exploration");
-    rep.rule = "every generated (file, target configuration) is compiled with the real rssl::compile in every selection mode (all, each defined name, unknown names, no-pipeline) and each definition once more with the other definitions deleted; non-trivial = a pipeline result returned by pipeline_name=None that passed the count/order rule; distinct = different (target, data bytes, stages, metadata, pipeline state) tuple, plus distinct rejection messages and distinct duplicate-name outcomes".into();
+    rep.rule = "every generated (file, target configuration) is compiled with the real rssl::compile in every selection mode (all, each defined name, unknown names, no-pipeline) and each definition once more with the other definitions deleted, and the no-pipeline result is compared with the one of the file with all definitions deleted; non-trivial = a pipeline result returned by pipeline_name=None that passed the count/order rule; distinct = different (target, data bytes, stages, metadata, pipeline state) tuple, plus distinct rejection messages and distinct duplicate-name outcomes".into();
     if let Err(e) = sanity(&mut rep) {
         eprintln!("machinery error: {}", e);
         return 2;
@@ -944,16 +1263,18 @@ pub fn run(ctx: &Ctx) -> i32 {
     }
     rep.cov("files", Json::Int(files_total as i64 + dups.len() as i64 / 4));
     rep.cov("max_pipelines_per_file", Json::Int(ctx.pick(3, 4)));
+    rep.cov("mesh_attr_entry_points", (1..=MESH_VARIANTS).map(|k| format!("MsA{} / MsPayA{}: {}", k, k, mesh_variant_label(k))).collect::<Vec<_>>().into());
     rep.cov("spaces", listing.into());
     rep.cov("element_alphabets", ALPHABETS_DOC.into());
     rep.assumptions = vec![
-        "one fixed prelude (cbuffer + 6 resources in groups default/1/2, a static and two groupshared globals, 2 shared helpers, 8 entry points) and its variant without the mesh/task entry points; other programs are outside the space".into(),
+        "one fixed prelude (cbuffer + 6 resources in groups default/1/2, a static and two groupshared globals, 2 shared helpers, 8 entry points), its variant without the mesh/task entry points, and the mesh-attr variant (same globals and helpers; 2 pixel, 1 task and 6+6 mesh entry points that differ in the per-vertex / per-primitive placement of the attributes TEXCOORD and MATERIAL, each with structs of its own); other programs are outside the space".into(),
+        "mesh-attr prelude: only mesh+pixel and task+mesh+pixel pipelines are defined in it; at most one attribute goes through a directly annotated primitives parameter (the other one is then per vertex); Msl rejects the pipelines whose pixel entry reads such an attribute (missing interpolator) and that rejection must reproduce like every back-end rejection".into(),
         "sequences are complete over the stated alphabet per length (see coverage.spaces); longer sequences use smaller alphabets (thinned by alphabet, deterministically, never by sampling)".into(),
         "\"the same pipeline with the other definitions deleted\" keeps the definition's name, text and position relative to the functions; the functions themselves stay".into(),
         "a pipeline is identified independently of the comparison by its stage list (stage kinds, entry names on HLSL, numthreads), which differs between the 5 shapes and the 2 pixel entries".into(),
         "a back-end rejection of a definition (Msl) must reproduce identically for the whole file (first rejected definition in source order) and for selection by name".into(),
         "files with duplicate pipeline names: only a clean outcome is demanded (an error, or results obeying the count/identity rule), because the property does not say which of the two a name selects".into(),
-        "no-pipeline mode: never a panic, never a 'does not contain' error; if accepted exactly one result without stages and without pipeline state; its content is not compared (the property only speaks about pipelines); a back-end rejection for other reasons (Msl: mesh intrinsics need a mesh pipeline) is allowed".into(),
+        "no-pipeline mode: never a panic, never a 'does not contain' error; if accepted exactly one result without stages and without pipeline state; a back-end rejection for other reasons (Msl: mesh intrinsics need a mesh pipeline) is allowed. Its content (data, stages, metadata, state, or the diagnostic) must equal that of the same file with every Pipeline block deleted ('whether or not other pipelines are defined'); not compared for files with duplicate names".into(),
         "unknown name: must be Err mentioning `does not contain the pipeline` and the name (documented text of compile.rs); in the larger spaces one of three unknown names per case, rotating".into(),
     ];
     finish(ctx, rep)
@@ -1013,8 +1334,8 @@ pub fn replay(ctx: &Ctx, body: &str) -> i32 {
         eprintln!("machinery error: {} names for {} elements", names.len(), elems.len());
         return 2;
     }
-    if fnset == 1 && elems.iter().any(|e| e.shape > 2) {
-        eprintln!("machinery error: mesh shapes need the full prelude");
+    if fnset > 2 || elems.iter().any(|e| !e.fits(fnset)) {
+        eprintln!("machinery error: an element does not fit prelude {}", fnset);
         return 2;
     }
     let case = Case { elems, names, layout, fnset, cfg, undef };
